@@ -17,16 +17,21 @@ the attributes as a SET OF: tag `31`, DER definite length (short form below 128,
 theorem encodeVerify_is_der (attrs : Bytes) (h : attrs.length < 65536) :
     encodeVerify attrs = some (tlv 0x31 attrs) := by
   unfold encodeVerify tlv encLen
-  simp only [Rpki.Consts.encodeVerifyDerLength, if_true]
+  simp only [Rpki.Consts.encodeVerifyDerLength, Rpki.Consts.encodeVerifyShort, Rpki.Consts.encodeVerifyMid,
+    Rpki.Consts.encodeVerifyMax, if_true]
   by_cases h1 : attrs.length < 128
   · have : attrs.length < 0x80 := h1
     simp [h1]
-  · by_cases h2 : attrs.length < 0x100
+  · by_cases h2 : attrs.length < 256
     · have h1' : ¬ attrs.length < 0x80 := h1
-      simp [h1, h2]
+      have h2' : attrs.length < 0x100 := h2
+      have : attrs.length % 256 = attrs.length := Nat.mod_eq_of_lt h2
+      simp [h1, h2, this]
     · have h1' : ¬ attrs.length < 0x80 := h1
+      have h2' : ¬ attrs.length < 0x100 := h2
       have h3 : attrs.length < 0x10000 := h
-      simp [h1, h2, h3]
+      have : attrs.length / 256 % 256 = attrs.length / 256 := Nat.mod_eq_of_lt (by omega)
+      simp [h1, h2, h3, this]
 
 theorem parseAttrs_len {strict : Bool} {attrs ct md : Bytes} {st : X509.Civil}
     (h : parseAttrs strict attrs = some (ct, md, st)) : attrs.length < 65536 := by
@@ -229,6 +234,6 @@ theorem attrs_too_long_rejected (strict : Bool) (attrs : Bytes) (h : attrs.lengt
 /-- the 128-octet boundary: with the original length bytes (`31 02 00 80 …`) a correct signature
 over the DER SET OF (`31 81 80 …`) could not verify; this instance is decided by evaluation -/
 example : encodeVerify (List.replicate 128 0) = some (0x31 :: 0x81 :: 128 :: List.replicate 128 0) := by
-  simp [encodeVerify, Rpki.Consts.encodeVerifyDerLength]
+  simp [encodeVerify, Rpki.Consts.encodeVerifyDerLength, Rpki.Consts.encodeVerifyShort, Rpki.Consts.encodeVerifyMid]
 
 end Rpki.Props.C02
